@@ -51,6 +51,7 @@ namespace
             int ni = (int)r.range(1, tier == THOROUGH ? 12 : 8), nl = (int)r.range(1, 4);
             p.cfg = {ni, nl, (int64_t)r.below(3)};
             int n = (int)r.range(4, tier == THOROUGH ? 120 : 50);
+            if (r.chance(1, 40)) n *= 25; // a long history: what only accumulates over hundreds or thousands of operations
             for (int i = 0; i < n; i++)
             {
                 int64_t it = (int64_t)r.below(ni), l = (int64_t)r.below(nl);
@@ -448,6 +449,7 @@ namespace
             int ni = (int)r.range(1, tier == THOROUGH ? 12 : 8), nl = (int)r.range(1, 4);
             p.cfg = {ni, nl};
             int n = (int)r.range(4, tier == THOROUGH ? 120 : 50);
+            if (r.chance(1, 40)) n *= 25; // a long history: what only accumulates over hundreds or thousands of operations
             for (int i = 0; i < n; i++)
             {
                 int64_t it = (int64_t)r.below(ni), l = (int64_t)r.below(nl);
@@ -869,6 +871,7 @@ namespace
             int ni = (int)r.range(1, tier == THOROUGH ? 12 : 8), nl = (int)r.range(1, 3);
             p.cfg = {ni, nl};
             int n = (int)r.range(4, tier == THOROUGH ? 100 : 45);
+            if (r.chance(1, 40)) n *= 25; // a long history: what only accumulates over hundreds or thousands of operations
             for (int i = 0; i < n; i++) p.ops.push_back({(int64_t)r.below(SH_N), (int64_t)r.below(ni), (int64_t)r.below(nl), (int64_t)r.below(ni)});
             return p;
         }
